@@ -10,8 +10,12 @@ EXTENDS Integers, Sequences, FiniteSets
 
 CompsStates == {"none", "valid", "missing", "dir", "empty", "metaonly", "remarks", "garbage", "needsfactor"}
 FsrcStates == {"none", "loc", "badloc", "file", "filemissing", "filebad", "fileincomplete"}
-OutStates == {"absent", "ok", "nodir"}
+\* an output: not asked for | a path that can be written and does not exist yet | a path in a directory that does
+\* not exist | a path that can be written and already holds a (longer) document of an earlier run
+OutStates == {"absent", "ok", "nodir", "over"}
 Outputs == {"oc", "of", "json", "xml", "txt"}
+Writable == {"ok", "over"}
+StaleAtStart(c) == {o \in Outputs : c.out[o] = "over"}
 Configs == [comps : CompsStates, fsrc : FsrcStates, out : [Outputs -> OutStates], license : BOOLEAN, lm : BOOLEAN, v : 0..3]
 
 HasComponents(c) == c.comps \in {"valid", "needsfactor"}
@@ -26,7 +30,8 @@ RunFrom(s) ==
            end(code) == [s EXCEPT !.exit = code, !.reported = (code # 0), !.pc = "ended"]
            goto(st) == [s EXCEPT !.pc = st]
            save(o, next) == IF c.out[o] = "nodir" THEN end(73)
-                            ELSE [s EXCEPT !.pc = next, !.written = IF c.out[o] = "ok" THEN @ \cup {o} ELSE @]
+                            ELSE [s EXCEPT !.pc = next, !.written = IF c.out[o] \in Writable THEN @ \cup {o} ELSE @,
+                                           !.stale = IF c.out[o] \in Writable THEN @ \ {o} ELSE @]
        IN RunFrom(
             CASE s.pc = "args" -> IF ParserRefuses(c) THEN end(1) ELSE goto("license")
               [] s.pc = "license" -> IF c.license THEN end(0) ELSE goto("comps")
@@ -42,5 +47,5 @@ RunFrom(s) ==
               [] s.pc = "print" -> [s EXCEPT !.printed = TRUE, !.pc = "txt"]
               [] s.pc = "txt" -> save("txt", "done")
               [] OTHER -> end(0))
-Outcome(c) == RunFrom([cfg |-> c, pc |-> "args", written |-> {}, printed |-> FALSE, exit |-> -1, reported |-> FALSE])
+Outcome(c) == RunFrom([cfg |-> c, pc |-> "args", written |-> {}, stale |-> StaleAtStart(c), printed |-> FALSE, exit |-> -1, reported |-> FALSE])
 =============================================================================
